@@ -595,6 +595,9 @@ func properties() map[string]*propDef {
 								pre = 4
 							}
 							out = append(out, item{Harness: "H_C12_sched", Cfg: []int{op, router, entry, target, pre}, Label: "interleaving exploration: mutator, router, entry, target of the concurrent request, preemption bound"})
+							if tier == "thorough" {
+								out = append(out, item{Harness: "H_C12_sched", Cfg: []int{op, router + 10, entry, target, 3}, Label: "interleaving exploration with a third thread (a second change of another kind), 3 preemptions"})
+							}
 						}
 					}
 				}
@@ -602,7 +605,7 @@ func properties() map[string]*propDef {
 			return out
 		},
 		Bounds: map[string]interface{}{"threads": "2: one request (concrete URL), one mutator operation; thorough adds a third thread with a second mutator", "services": 2, "routes_per_service": 2,
-			"interleavings": "H_C12_sched: every interleaving of the two threads with context switches at lock acquisitions and at most 2 (thorough 4) preemptions; 9 later requests compared"},
+			"interleavings": "H_C12_sched: every interleaving of the two threads with context switches at lock acquisitions and at most 2 (thorough 4) preemptions; thorough adds a third thread (second mutator) with 3 preemptions; 11 later requests compared"},
 		Assumptions: append([]string{"event-order encoding over 8-bit timestamps: program order, RWMutex sections (writers exclusive, readers shared, a pending writer blocks new readers), adjacency of conflicting accesses = data race",
 			"H_C12 (event-order queries): each thread is executed alone from the state before the mutation (its own control flow does not see the other thread's writes); it decides race-freedom and deadlock-freedom over all schedules",
 			"H_C12_sched (value level): the two threads run interleaved on one state, switching only where a lock is acquired (sound for lock-ordered accesses, which H_C12 establishes for the same threads), within the preemption bound; the concurrent request's answer must be the one of the state before or after the change, and later requests must be answered as after the change made with no request in flight; natively the schedule is enforced by wrappers that replace sync.RWMutex/sync.Mutex in overlaid copies of the sources",
